@@ -96,7 +96,9 @@ func (d *decl) build() (*MetaData, *BuildDirective) {
 		}
 		bd.Providers = append(bd.Providers, ps)
 		if len(p.Struct) > 0 {
-			sp := &ProviderSpec{Type: ProviderTypeStruct, StructType: declType(k), ReferencedImports: map[string]*Import{}}
+			// kessoku.Async(kessoku.Struct[T]()) is accepted by the parser: the expansion of an Async provider's result is
+			// declared Async too (the field reads themselves must stay synchronous steps of the producer's thread)
+			sp := &ProviderSpec{Type: ProviderTypeStruct, StructType: declType(k), ReferencedImports: map[string]*Import{}, IsAsync: p.Async}
 			for i, f := range p.Struct {
 				sp.StructFields = append(sp.StructFields, &StructFieldSpec{Type: declType(f), Name: fmt.Sprintf("F%d", f), Index: i})
 			}
@@ -656,6 +658,44 @@ func TestVerifBoundedDecls(t *testing.T) {
 		}
 		return true
 	}
+	// a fixed family the enumeration below is too small for: k input-free Async providers feeding a comb of joiners, so
+	// that they sit at different depths below the requested value (C05: the number of threads must still cover them all)
+	for k := 2; k <= 5 && len(res.Failures) < 4; k++ {
+		for mask := 0; mask < 4; mask++ { // joiners Async or not; root takes the last source directly or through a joiner
+			d := &decl{}
+			for i := 0; i < k; i++ {
+				d.P = append(d.P, declProvider{Async: true})
+			}
+			prev := 0
+			last := k - 1
+			if mask&2 != 0 {
+				last = k // every source goes through a joiner
+			}
+			for i := 1; i < last; i++ {
+				d.P = append(d.P, declProvider{Async: mask&1 != 0, Req: []int{prev, i}})
+				prev = len(d.P) - 1
+			}
+			root := declProvider{Req: []int{prev}}
+			if last == k-1 && k-1 != prev {
+				root.Req = append(root.Req, k-1)
+			}
+			d.P = append(d.P, root)
+			d.Return = len(d.P) - 1
+			n := len(d.P)
+			orders := [][]int{nil, nil, rng.Perm(n), rng.Perm(n)}
+			for i := 0; i < n; i++ {
+				orders[0] = append(orders[0], i)
+				orders[1] = append(orders[1], n-1-i)
+			}
+			for _, o := range orders {
+				dd := *d
+				dd.Order = o
+				if !run(&dd) {
+					break
+				}
+			}
+		}
+	}
 	maxN := 3
 	if kvcTier() == "thorough" {
 		maxN = 4
@@ -788,7 +828,7 @@ func TestVerifBoundedDecls(t *testing.T) {
 		"labelled": "bounded - executed on the real planner (CreateInjector), not counted as proof", "evaluations": evals, "distinct_nontrivial": nontrivial,
 		"refused_planted_defects": refused, "samples": samples, "exhaustive": false, "violated_clauses": clauses,
 		"time_budget_s": budget.Seconds(), "enumeration_stopped_on_time_budget": enumStopped, "random_phase_stopped_on_time_budget": timedOut, "wall_s": time.Since(started).Seconds(),
-		"rule": fmt.Sprintf("declarations with <= %d providers enumerated in canonical form (<= 2 requirements each from earlier providers' results, extra result groups, bound interfaces, expanded struct fields, an argument type and context.Context; every Async / fallible / multi-value / Bind mask; struct expansion; every declaration order for <= 3 providers; the largest size thinned by the seed (1:10 quick, 1:3 thorough)), each also with planted back edges, a duplicate supplier, a struct expansion with two fields of one type and an orphan Struct; plus %d seeded random declarations with up to %d providers; non-trivial = the plan has >= 2 threads, or a planted defect", maxN, rounds, bigN),
+		"rule": fmt.Sprintf("declarations with <= %d providers enumerated in canonical form (<= 2 requirements each from earlier providers' results, extra result groups, bound interfaces, expanded struct fields, an argument type and context.Context; every Async / fallible / multi-value / Bind mask; struct expansion; every declaration order for <= 3 providers; the largest size thinned by the seed (1:10 quick, 1:3 thorough)), each also with planted back edges, a duplicate supplier, a struct expansion with two fields of one type and an orphan Struct; a fixed family of 2..5 input-free Async providers at different depths (comb of joiners, 4 shapes x 4 orders); plus %d seeded random declarations with up to %d providers; non-trivial = the plan has >= 2 threads, or a planted defect", maxN, rounds, bigN),
 	}
 	res.emit()
 }
@@ -877,6 +917,9 @@ func assumedPlannerContracts(g *Graph) string {
 		}
 		if m.providerSpec.Type == ProviderTypeFieldAccess && (m.providerSpec.SourceField == nil || len(m.providerSpec.Provides) < 1) {
 			return "nodeDataPresent: a field-access provider lacks its field or its value"
+		}
+		if m.providerSpec.Type == ProviderTypeFieldAccess && (m.providerSpec.IsAsync || m.providerSpec.IsReturnError) {
+			return "nodeDataPresent: a field-access provider is Async or fallible (the emitted read has no wait of its own)"
 		}
 		if m.providerSpec.Type == ProviderTypeFieldAccess && len(m.providerArgs) < 1 {
 			return "topoOK: a field-access node has no argument slot"
